@@ -27,7 +27,52 @@ def _bomb(st, kind):
     return st['nb']
 
 
+def gen_flood(rng, tier, i):
+    """one user types ahead a long run of commands that all fail; meanwhile the timer ticks: the other user, the heart beats
+    and the call_outs are owed their service in every one of those cycles (the failing task is the command, nothing else)"""
+    p = Plan()
+    p.file('mcfg.h', mcfg({}))
+    p.opt('epoll_seed', rng.randint(1, 1 << 30))
+    p.cfg('Port', '4000:telnet')
+    p.meta['flood'] = True
+    p.cycle(connect(0, 0)); p.cycle(connect(0, 1))
+    p.cycle(send(0, 'do name u0;clone /vobj clk;hb clk 1\r\n'))
+    p.cycle(send(1, 'do name u1\r\n'))
+    p.cycle(tick())
+    n = rng.randint(4, 40)
+    how = rng.choice(('err', 'typeerr', 'throw'))
+    d = rng.choice((1, 2, 3, 5))
+    p.cycle(send(0, 'do co kf %d rec fired\r\n' % d))
+    p.cycle(send(1, ''.join('do bomb %d %s\r\n' % (900 + k, how) for k in range(n))))
+    for k in range(n + 4):
+        p.cycle(tick())
+        if rng.random() < 0.3: p.cycle(send(0, 'do rec ping%d\r\n' % k))
+    p.idle(2)
+    return p
+
+
+def _flood_check(plan, res):
+    v = []
+    evs = res.events
+    tick_cycles = sorted(set(e.cycle for e in evs if e.kind == 'step' and re.match(r'&?step (tick|stall) ', e.rest)))
+    by_cycle = {}
+    for e in evs: by_cycle.setdefault(e.cycle, []).append(e)
+    first_bomb = next((e.cycle for e in evs if e.kind == 'R' and re.match(r'U \S+ B9\d\d', e.rest)), None)
+    if first_bomb is None: return v
+    for c in tick_cycles:
+        if c < first_bomb: continue
+        ce = by_cycle.get(c, [])
+        errs = [e.rest for e in ce if e.kind == 'R' and e.rest.startswith('ERR ')]
+        if not errs or not all('trace=cmd_do@' in x for x in errs): continue
+        if not any(e.kind == 'R' and e.rest.startswith('HB clk ') for e in ce):
+            v.append(Violation(PROP, 'starved', 'timer tick in cycle %d: a user command failed (%s) and the heart beat of the healthy object clk was not served in that cycle' % (c, errs[0][:90]),
+                               PROP + '/liveness/failing-commands-starve-heart-beats'))
+            break
+    return v
+
+
 def gen(rng, tier, i):
+    if rng.random() < 0.06: return gen_flood(rng, tier, i)
     p = Plan()
     console_mode = rng.random() < 0.3
     kind = rng.choice(('telnet', 'telnet', 'ascii'))
@@ -307,6 +352,8 @@ def check(plan, res):
     if v:
         return v
     evs = res.events
+    if plan.meta.get('flood'):
+        return v + spin_violations(PROP, res, _error_cycles(res)) + _flood_check(plan, res) + _timers_alive(plan, res)
     # the driver keeps running: a connection that the (level-triggered) poll reports readable cycle after cycle without the
     # driver reading it is a busy loop at 100 % CPU in deployment, and that client is never served again
     v += spin_violations(PROP, res, _error_cycles(res))
